@@ -2,7 +2,7 @@
   C04 — model of `kopf/_cogs/structs/diffs.py`: `diff_iter`, `reduce_iter`, and an applier.
 
   `diff` mirrors `diff_iter(a, b, path, scope=FULL)`:
-    * `case a, b if a == b: pass`            — Python `==` (`J.pyEq`: `True == 1`, dicts unordered);
+    * `case a, b if _same(a, b): pass`      — JSON equality (`same`: bool ≠ number, dicts unordered);
     * `case None, _: ADD`, `case _, None: REMOVE`;
     * two mappings: keys only in `b` (`diff_iter(None, b[k])`), keys only in `a`
       (`diff_iter(a[k], None)`), common keys (recursion)   — three loops, in that order;
@@ -16,6 +16,31 @@ namespace Kopf.C04
 open Kopf Kopf.J
 
 abbrev Path := List String
+
+mutual
+  /-- `diffs._same` (kopf 6b2e53c): equality as JSON values — as Python `==` on parsed JSON (dicts
+      compare as unordered maps, lists item by item), except that a boolean never equals a number.
+      (Numbers are integers here; `1 == 1.0` is outside the model.) -/
+  def same : J → J → Bool
+    | .null, .null => true
+    | .bool a, .bool b => a == b
+    | .num a, .num b => a == b
+    | .str a, .str b => a == b
+    | .arr a, .arr b => sameList a b
+    | .obj a, .obj b => a.length == b.length && sameSub a b
+    | _, _ => false
+  def sameList : List J → List J → Bool
+    | [], [] => true
+    | x :: xs, y :: ys => same x y && sameList xs ys
+    | _, _ => false
+  /-- every binding of `a` has a `same` binding in `b` (for unique keys and equal lengths: the dicts are equal). -/
+  def sameSub : List (String × J) → List (String × J) → Bool
+    | [], _ => true
+    | (k, x) :: xs, b =>
+        (match lookup k b with
+         | some y => same x y
+         | none => false) && sameSub xs b
+end
 
 inductive Op where
   | add | change | remove
@@ -41,7 +66,7 @@ def removeItem (p : Path) (x : J) : List Item :=
 
 /-- the non-recursive cases of `diff_iter` (at least one side is not a mapping). -/
 def diffLeaf (a b : J) (p : Path) : List Item :=
-  if pyEq a b then [] else
+  if same a b then [] else
   match a, b with
   | .null, b => [⟨.add, p, .null, b⟩]
   | a, .null => [⟨.remove, p, a, .null⟩]
@@ -67,7 +92,7 @@ mutual
   /-- `diffs.diff_iter(a, b, path)` with the full scope. -/
   def diff : J → J → Path → List Item
     | .obj ka, .obj kb, p =>
-        if pyEq (.obj ka) (.obj kb) then []
+        if same (.obj ka) (.obj kb) then []
         else diffAdded ka kb p ++ diffRemoved ka kb p ++ diffCommon ka kb p
     | a, b, p => diffLeaf a b p
   /-- `for key in a_keys & b_keys: yield from diff_iter(a[key], b[key], path+(key,))` -/
